@@ -569,3 +569,230 @@ def gen_schedule(rng, n_works=None, n_iter=None, remote=None, adversarial_frac=0
     events.append({'kfail': [], 'ready': [], 'fin': list(ids), 'clock': 100 + n_iter * 3})     # epilogue
     return dict(kind='sched', remote=remote, tick_limit=tick_limit if tick_limit is not None else rng.choice([0, 1, 2, 3, 5, 8, 39]),
                 events=events, ids=ids, adversarial=[w for w in ids if adv[w]])
+
+
+# ============================================================================= real HttpProtocolHandler works
+# (part ii of the correspondence): the REAL executor loop multiplexing REAL HttpProtocolHandler works
+# over fake sockets (harness/sim.py FakeSock) with a fake kernel epoll.
+import sim as SIM
+
+
+class TSock(SIM.FakeSock):
+    """FakeSock that also records, per conversation, the order of data and close events"""
+    def __init__(self, name, conv):
+        super().__init__(name)
+        self.conv = conv
+        self.on_send = None
+
+    def recv(self, n):
+        try:
+            data = super().recv(n)
+        except BlockingIOError:
+            raise
+        except BaseException as e:
+            self.conv['events'].append([self.name, 'recv_err', type(e).__name__])
+            raise
+        self.conv['events'].append([self.name, 'recv', len(data)])
+        return data
+
+    def send(self, data):
+        try:
+            k = super().send(data)
+        except BlockingIOError:
+            raise
+        except BaseException as e:
+            self.conv['events'].append([self.name, 'send_err', type(e).__name__])
+            raise
+        self.conv['events'].append([self.name, 'send', k])
+        if self.on_send:
+            self.on_send(self)
+        return k
+
+    def close(self):
+        if not self.closed:
+            self.conv['events'].append([self.name, 'close'])
+        super().close()
+
+    def shutdown(self, how):
+        super().shutdown(how)
+        self.conv['events'].append([self.name, 'shutdown'])
+
+
+def _io_item(x):
+    """script item -> what FakeSock.feed expects"""
+    if x == 'EOF':
+        return SIM.EOF
+    if isinstance(x, str):
+        return SIM.io_error(x)
+    return x
+
+
+class HttpWorld:
+    """convs: list of dicts
+         name, arrive (iteration), client: [bytes | 'EOF' | 'reset' | 'timeout' ...] fed one item per iteration once the
+         previous one was consumed, client_send: [int | 'pipe' | 'oserror' ...] outcomes of the proxy's send() to the client,
+         upstreams: per connect attempt {connect: None | 'refused' | 'gaierror' | 'timeout' | 'unreach',
+                                         respond: [bytes | 'EOF' | 'reset'], send: [...]}   (responds once a full request head was received)
+       opts: flags for FlagParser.initialize"""
+
+    def __init__(self, convs, opts=None, asfound=False, max_iter=600):
+        self.convs = [dict(c) for c in convs]
+        self.opts = dict(opts or {})
+        self.asfound = asfound
+        self.max_iter = max_iter
+        self.k = -1
+        self.idle = 0
+        self.by_fd = {}
+        self.by_host = {}
+
+    # ---- fake kernel
+    def cur_kfail(self):
+        return ()
+
+    def on_select(self):
+        ex = self.ex
+        progressed = False
+        # arrivals
+        for c in self.convs:
+            if c['state'] == 'waiting' and c['arrive'] <= self.k:
+                sock = TSock('client', c)
+                c['client_sock'] = sock
+                for x in c.get('client_send', []):
+                    sock.script_send(_io_item(x) if isinstance(x, str) else x)
+                self.by_fd[sock.fd] = sock
+                c['state'] = 'live'
+                c['feed'] = list(c.get('client', []))
+                ex.work_queue.put((sock, ('10.1.1.%d' % (len(self.by_fd) % 250), 40000)))
+                progressed = True
+                break           # one arrival per iteration (the queue is polled once per iteration)
+        # client input: next item once the previous one was consumed
+        for c in self.convs:
+            if c['state'] == 'live' and c['feed'] and not c['client_sock'].inq and not c['client_sock'].closed:
+                c['client_sock'].feed(_io_item(c['feed'].pop(0)))
+                progressed = True
+        out = []
+        for fd, ev in list(ex.selector._selector.reg.items()):
+            s = self.by_fd.get(fd)
+            if s is None or s.closed:
+                continue
+            m = 0
+            if ev & select.EPOLLIN and s.readable():
+                m |= select.EPOLLIN
+            if ev & select.EPOLLOUT:
+                m |= select.EPOLLOUT
+            if m:
+                out.append((fd, m))
+        if out or progressed or any(c['state'] == 'waiting' for c in self.convs):
+            self.idle = 0
+        else:
+            self.idle += 1
+        if self.idle >= 3 or self.k >= self.max_iter:
+            raise EndOfSchedule()
+        return out
+
+    # ---- patched upstream connect
+    def connect(self, addr, timeout=None, source_address=None):
+        host = addr[0]
+        c = self.by_host.get(host)
+        if c is None:
+            raise ConnectionRefusedError(errno.ECONNREFUSED, 'no such fake host %r' % (host,))
+        n = len(c['upstream_socks']) + c['connect_failures']
+        spec = c.get('upstreams', [{}])
+        spec = spec[min(n, len(spec) - 1)] if spec else {}
+        c['events'].append(['up%d' % n, 'connect', '%s:%s' % (addr[0], addr[1])])
+        if spec.get('connect'):
+            c['connect_failures'] += 1
+            raise SIM.io_error(spec['connect'])
+        s = TSock('up%d' % n, c)
+        for x in spec.get('send', []):
+            s.script_send(_io_item(x) if isinstance(x, str) else x)
+        resp = [_io_item(x) for x in spec.get('respond', [])]
+        trigger = spec.get('after', b'\r\n\r\n')
+        def on_send(sock, resp=resp, trigger=trigger):
+            if resp and trigger in sock.out:
+                sock.feed(*resp)
+                del resp[:]
+        s.on_send = on_send
+        if trigger == b'' and resp:
+            s.feed(*resp); del resp[:]
+        c['upstream_socks'].append(s)
+        self.by_fd[s.fd] = s
+        return s
+
+    def run(self):
+        import logging
+        from proxy.common.flag import FlagParser
+        from proxy.core.work.fd import LocalFdExecutor
+        from proxy.common.backports import NonBlockingQueue
+        opts = dict(self.opts)
+        opts.setdefault('threadless', True)
+        logging.disable(logging.CRITICAL)
+        patches = []
+        try:
+            key = repr(sorted(opts.items(), key=lambda kv: kv[0]))
+            flags = _HTTP_FLAGS.get(key)
+            if flags is None:
+                flags = _HTTP_FLAGS[key] = FlagParser.initialize(**opts)
+            for c in self.convs:
+                c.update(state='waiting', events=[], upstream_socks=[], connect_failures=0)
+                for h in c.get('hosts', []):
+                    self.by_host[h] = c
+            for target in ('proxy.core.connection.server.new_socket_connection',
+                           'proxy.core.base.tcp_upstream.new_socket_connection'):
+                try:
+                    p = mock.patch(target, self.connect); p.start(); patches.append(p)
+                except (AttributeError, ModuleNotFoundError):
+                    pass
+            ex = LocalFdExecutor(iid='1', work_queue=NonBlockingQueue(), flags=flags)
+            if self.asfound:
+                old = asfound_threadless()
+                for name in ('_update_selector', '_cleanup', '_cleanup_inactive'):
+                    setattr(ex, name, types.MethodType(getattr(old.Threadless, name), ex))
+            self.ex = ex
+            ex._loop = asyncio.new_event_loop()
+            ex.selector = FakeSelector(self)
+            orig = ex._run_once
+            world = self
+            async def counted():
+                world.k += 1
+                return await orig()
+            ex._run_once = counted
+            try:
+                ex.loop.run_until_complete(ex._run_forever())
+                status = ['stopped']
+            except EndOfSchedule:
+                status = ['running']
+            except Exception as e:
+                status = ['crashed', C.exn_code(e), repr(e)[:160]]
+            leftover = dict(works=len(ex.works), registered=len(ex.registered_events_by_work_ids),
+                            sel=len(ex.selector._fd_to_key), unfinished=len(ex.unfinished))
+            for t in list(ex.unfinished):
+                t.cancel()
+            try:
+                ex.loop.run_until_complete(asyncio.sleep(0))
+            except BaseException:
+                pass
+            ex.loop.close()
+        finally:
+            for p in patches:
+                p.stop()
+            logging.disable(0)
+        res = {}
+        for c in self.convs:
+            cs = c.get('client_sock')
+            res[c['name']] = dict(
+                arrived=cs is not None,
+                client_out=cs.out if cs else b'',
+                client_closed=bool(cs and cs.closed),
+                client_close_count=cs.close_count if cs else 0,
+                upstream_out=[s.out for s in c['upstream_socks']],
+                upstream_closed=[s.closed for s in c['upstream_socks']],
+                upstream_close_count=[s.close_count for s in c['upstream_socks']],
+                connect_failures=c['connect_failures'],
+                events=c['events'],
+                unfed=len(c.get('feed', [])) if cs else None,
+            )
+        return dict(status=status, iterations=self.k, leftover=leftover, convs=res)
+
+
+_HTTP_FLAGS = {}
